@@ -9,8 +9,8 @@ Open Scope N_scope.
 
 (* ---------------------------------------------------------------- quoted scalars *)
 
-Theorem yaml_quoted_is_string : forall f st tg v, st <> Plain -> resolve f st tg v = RStr v.
-Proof. intros f st tg v H. destruct st; [contradiction| | | |]; reflexivity. Qed.
+Theorem yaml_quoted_is_string : forall st tg v, st <> Plain -> resolve st tg v = RStr v.
+Proof. intros st tg v H. destruct st; [contradiction| | | |]; reflexivity. Qed.
 
 (* ---------------------------------------------------------------- plain scalars *)
 
@@ -31,11 +31,11 @@ Proof.
   repeat (destruct H as [<-|H]; [repeat split; reflexivity|]). contradiction.
 Qed.
 
-Theorem yaml_plain_resolution : forall f v,
-  (resolve f Plain None v = RStr v <-> nonstring_spelling f v = false)
-  /\ (resolve f Plain None v = RErr <-> (infnan_spelling v = true)).
+Theorem yaml_plain_resolution : forall v,
+  (resolve Plain None v = RStr v <-> nonstring_spelling v = false)
+  /\ (resolve Plain None v = RErr <-> (infnan_spelling v = true)).
 Proof.
-  intros f v. cbn [resolve]. unfold nonstring_spelling, radix_int_spelling, plus_int_spelling,
+  intros v. cbn [resolve]. unfold nonstring_spelling, radix_int_spelling, plus_int_spelling,
     keyword_spelling, dec_i64_spelling, infnan_spelling, sci_spelling.
   destruct (mem v infnan_spellings) eqn:Hinf.
   - destruct (infnan_reaches_parse_float v Hinf) as (H1 & H2 & H3 & H4 & H5 & H6 & H7).
@@ -54,54 +54,50 @@ Proof.
        rewrite ?orb_true_r in Hx; cbn [orb] in Hx; try discriminate;
        repeat match goal with
               | H : context [match ?x with _ => _ end] |- _ => destruct x eqn:?
-              end; cbn [is_some orb andb negb] in *; try first [reflexivity | discriminate];
-       destruct (is_yaml f);
-       repeat match goal with
-              | H : context [fits_f64 ?a ?b] |- _ => destruct (fits_f64 a b)
-              | |- context [fits_f64 ?a ?b] => destruct (fits_f64 a b)
-              end; cbn [orb andb negb] in *; first [reflexivity | discriminate]).
+              end; cbn [is_some orb andb negb] in *; first [reflexivity | discriminate]).
 Qed.
 
 (* If the emitter meets the contract, every string survives whatever style the emitter picks *)
 Theorem yaml_string_survives_under_contract :
   forall (writes_plain : str -> bool) (quoted : style),
     quoted <> Plain -> emitter_meets_contract writes_plain ->
-    forall s, resolve FYaml (if writes_plain s then Plain else quoted) None s = RStr s.
+    forall s, resolve (if writes_plain s then Plain else quoted) None s = RStr s.
 Proof.
   intros wp q Hq Hc s. destruct (wp s) eqn:Hw.
-  - apply (proj1 (yaml_plain_resolution FYaml s)). apply Hc. exact Hw.
+  - apply (proj1 (yaml_plain_resolution s)). apply Hc. exact Hw.
   - apply yaml_quoted_is_string. exact Hq.
 Qed.
 
 (* ... and it is necessary: an emitter that writes a non-string spelling plain loses the string *)
 Theorem yaml_contract_necessary :
-  forall f s, nonstring_spelling f s = true -> resolve f Plain None s <> RStr s.
+  forall s, nonstring_spelling s = true -> resolve Plain None s <> RStr s.
 Proof.
-  intros f s H Heq. apply (proj1 (yaml_plain_resolution f s)) in Heq. rewrite H in Heq. discriminate.
+  intros s H Heq. apply (proj1 (yaml_plain_resolution s)) in Heq. rewrite H in Heq. discriminate.
 Qed.
 
 (* Spellings serde_yaml 0.9 writes as plain scalars although they look like numbers (observed by
-   the correspondence): the YAML loader keeps them strings (fix 4750225); the same token in a JSON
-   document is a number. *)
+   the correspondence).  The signed radix / double sign spellings are strings for the loader since
+   fix 49c92ee; a number beyond the f64 range is still a number: the loader reads such plain scalars
+   as numbers on purpose (core/tests/integration/inputs/imports/yaml_large_number.ncl), so strings
+   spelled like that do not survive YAML (known finding yaml-float-overflow-string). *)
 Definition s_1e400 : str := [49; 101; 52; 48; 48].          (* 1e400 *)
 Definition s_m1e999 : str := [45; 49; 101; 57; 57; 57].     (* -1e999 *)
 Definition s_0x_m5 : str := [48; 120; 45; 53].              (* 0x-5 *)
 Definition s_pp5 : str := [43; 43; 53].                     (* ++5 *)
-Example yaml_overflow_float_spelling_is_string :
-  resolve FYaml Plain None s_1e400 = RStr s_1e400 /\ resolve FYaml Plain None s_m1e999 = RStr s_m1e999
-  /\ resolve FJson Plain None s_1e400 = RNum 1 400.
-Proof. repeat split; vm_compute; reflexivity. Qed.
-Example yaml_signed_radix_spelling_is_string : resolve FYaml Plain None s_0x_m5 = RStr s_0x_m5.
+Example yaml_witness_overflow_float :
+  resolve Plain None s_1e400 = RNum 1 400 /\ resolve Plain None s_m1e999 = RNum (-1) 999.
+Proof. split; vm_compute; reflexivity. Qed.
+Example yaml_signed_radix_spelling_is_string : resolve Plain None s_0x_m5 = RStr s_0x_m5.
 Proof. vm_compute. reflexivity. Qed.
-Example yaml_double_sign_spelling_is_string : resolve FYaml Plain None s_pp5 = RStr s_pp5.
+Example yaml_double_sign_spelling_is_string : resolve Plain None s_pp5 = RStr s_pp5.
 Proof. vm_compute. reflexivity. Qed.
 Example yaml_ex_numbers :
-  resolve FYaml Plain None [48; 120; 49; 70] = RNum 31 0 /\ resolve FYaml Plain None [43; 53] = RNum 5 0
-  /\ resolve FYaml Plain None [49; 46; 53; 101; 45; 51] = RNum 15 (-4).
+  resolve Plain None [48; 120; 49; 70] = RNum 31 0 /\ resolve Plain None [43; 53] = RNum 5 0
+  /\ resolve Plain None [49; 46; 53; 101; 45; 51] = RNum 15 (-4).
 Proof. repeat split; vm_compute; reflexivity. Qed.
-Example yaml_ex_plain_string : resolve FYaml Plain None [97; 98] = RStr [97; 98] /\ nonstring_spelling FYaml [97; 98] = false.
+Example yaml_ex_plain_string : resolve Plain None [97; 98] = RStr [97; 98] /\ nonstring_spelling [97; 98] = false.
 Proof. split; reflexivity. Qed.
-Example yaml_ex_tagged_quoted_stays_string : resolve FYaml DoubleQuoted (Some TagInt) [53] = RStr [53].
+Example yaml_ex_tagged_quoted_stays_string : resolve DoubleQuoted (Some TagInt) [53] = RStr [53].
 Proof. reflexivity. Qed.
 
 (* ---------------------------------------------------------------- int_roundtrip *)
@@ -167,14 +163,7 @@ Lemma prefixed_none_of_chars p radix v c :
   In c p -> digit_or_minus c = false -> forallb digit_or_minus v = true -> prefixed_int p radix v = None.
 Proof. intros Hin Hc Hv. unfold prefixed_int. rewrite (strip_none_of_chars p v c Hin Hc Hv). reflexivity. Qed.
 
-Lemma u64_fits : forall z, (0 <= z <= u64_max)%Z -> fits_f64 z 0 = true.
-Proof.
-  intros z H. unfold fits_f64. cbn [Z.leb Z.compare]. change (10 ^ 0)%Z with 1%Z. rewrite Z.mul_1_r.
-  assert (Hm : (u64_max <= f64_max_z)%Z) by (apply Z.leb_le; vm_compute; reflexivity).
-  apply Z.leb_le. rewrite Z.abs_eq by lia. lia.
-Qed.
-
-Lemma resolve_plain_dec f z : (i64_min <= z <= u64_max)%Z -> resolve_plain f (dec_of_Z z) = RNum z 0.
+Lemma resolve_plain_dec z : (i64_min <= z <= u64_max)%Z -> resolve_plain (dec_of_Z z) = RNum z 0.
 Proof.
   intro H. pose proof (dec_of_Z_chars z) as Hc. unfold resolve_plain.
   rewrite (prefixed_none_of_chars s_0x 16 _ 120 (or_intror (or_introl eq_refl)) eq_refl Hc).
@@ -193,8 +182,7 @@ Proof.
     assert (Hex : existsb is_digit (dec_of_N (Z.to_N z)) = true).
     { rewrite He. cbn [existsb]. rewrite Hd. reflexivity. }
     rewrite Hex. rewrite (from_sci_digits _ (Z.to_N z) (dec_of_N_digits _) (dec_of_N_parse _)).
-    rewrite Z2N.id by (unfold i64_max in Hgt; lia).
-    rewrite u64_fits by (unfold i64_max in Hgt; lia). rewrite andb_false_r. reflexivity.
+    rewrite Z2N.id by (unfold i64_max in Hgt; lia). reflexivity.
 Qed.
 
 (* Every integer of the exact range is emitted as its decimal token, and that token denotes the
@@ -202,12 +190,12 @@ Qed.
    (models of external code). *)
 Theorem int_roundtrip : forall n : Z, (i64_min <= n <= u64_max)%Z ->
   int_token n = Some (dec_of_Z n)
-  /\ (forall f, resolve f Plain None (dec_of_Z n) = RNum n 0)
+  /\ resolve Plain None (dec_of_Z n) = RNum n 0
   /\ json_serde_int (dec_of_Z n) = SInt n
   /\ ((n <= i64_max)%Z -> toml_int (dec_of_Z n) = TInt n).
 Proof.
   intros n H. split; [apply int_token_exact; exact H|].
-  split; [intro f; apply resolve_plain_dec; exact H|].
+  split; [apply resolve_plain_dec; exact H|].
   split; [apply json_serde_int_dec; exact H|].
   intro Hle. apply toml_int_dec. lia.
 Qed.
